@@ -232,7 +232,7 @@ where
 
     #[inline]
     fn empty(&mut self) {
-        self.slice = &[];
+        self.slice = &self.slice[..0];
     }
 
     #[inline]
